@@ -225,6 +225,10 @@ pub struct Real {
     pub model_line: Option<String>,
     pub nm: Names,
     pub ds: crate::ds::Ds,
+    /// `tenant on`: another master key served by the same `Covercrypt` instance, edited like `M0` but with the opposite
+    /// encryption hints, operated right before every operation on `M0`; never shown to the model, never printed
+    pub tenant_on: bool,
+    pub tenant: Option<(MasterSecretKey, Option<MasterPublicKey>, Option<UserSecretKey>)>,
 }
 
 /// the byte stream `sign` feeds KMAC, recomputed independently from the serialised key
@@ -309,7 +313,7 @@ pub fn clone_msk(m: &MasterSecretKey) -> MasterSecretKey {
 
 impl Real {
     pub fn new() -> Self {
-        Self { cc: Covercrypt::default(), msks: vec![], mpks: vec![], usks: vec![], encs: vec![], pkes: vec![], hdrs: vec![], dead: Default::default(), model_line: None, nm: Names::default(), ds: crate::ds::Ds::new() }
+        Self { cc: Covercrypt::default(), msks: vec![], mpks: vec![], usks: vec![], encs: vec![], pkes: vec![], hdrs: vec![], dead: Default::default(), model_line: None, nm: Names::default(), ds: crate::ds::Ds::new(), tenant_on: false, tenant: None }
     }
 
     fn reset(&mut self) {
@@ -322,6 +326,92 @@ impl Real {
         self.dead.clear();
         self.nm = Names::default();
         self.ds = crate::ds::Ds::new();
+        self.tenant_on = false;
+        self.tenant = None;
+    }
+
+    /// the other tenant does what `M0` is about to do (its own structure has the same shape, the opposite hints)
+    fn tenant_step(&mut self, t: &[&str]) {
+        let first_m0 = t.get(1).map(|h| *h == "M0").unwrap_or(false);
+        match t {
+            ["setup", "M0", _] => {
+                if let Ok((m, k)) = self.cc.setup() {
+                    self.tenant = Some((m, Some(k), None));
+                }
+            }
+            _ => {}
+        }
+        let Some((m, k, u)) = self.tenant.as_mut() else { return };
+        match t {
+            ["add_dim", "M0", kind, d] => {
+                if let Some(d) = str_of_hex(d) {
+                    let _ = if *kind == "h" { m.access_structure.add_hierarchy(d) } else { m.access_structure.add_anarchy(d) };
+                }
+            }
+            ["del_dim", "M0", d] => {
+                if let Some(d) = str_of_hex(d) {
+                    let _ = m.access_structure.del_dimension(&d);
+                }
+            }
+            ["add_attr", "M0", d, a, hint, after] => {
+                if let (Some(d), Some(a)) = (str_of_hex(d), str_of_hex(a)) {
+                    let after = if *after == "-" { None } else { str_of_hex(after) };
+                    let _ = m.access_structure.add_attribute(QualifiedAttribute::new(&d, &a), EncryptionHint::new(*hint != "h"), after.as_deref());
+                }
+            }
+            ["del_attr", "M0", d, a] => {
+                if let (Some(d), Some(a)) = (str_of_hex(d), str_of_hex(a)) {
+                    let _ = m.access_structure.del_attribute(&QualifiedAttribute::new(&d, &a));
+                }
+            }
+            ["rename_attr", "M0", d, a, b] => {
+                if let (Some(d), Some(a), Some(b)) = (str_of_hex(d), str_of_hex(a), str_of_hex(b)) {
+                    let _ = m.access_structure.rename_attribute(&QualifiedAttribute::new(&d, &a), b);
+                }
+            }
+            ["disable_attr", "M0", d, a] => {
+                if let (Some(d), Some(a)) = (str_of_hex(d), str_of_hex(a)) {
+                    let _ = m.access_structure.disable_attribute(&QualifiedAttribute::new(&d, &a));
+                }
+            }
+            ["update", "M0", _] => {
+                if let Ok(x) = self.cc.update_msk(m) {
+                    *k = Some(x);
+                }
+            }
+            ["rekey", "M0", _, p] | ["prune", "M0", _, p] => {
+                if let Ok(ap) = policy_of(p) {
+                    let r = if t[0] == "rekey" { self.cc.rekey(m, &ap) } else { self.cc.prune_master_secret_key(m, &ap) };
+                    if let Ok(x) = r {
+                        *k = Some(x);
+                    }
+                }
+            }
+            ["keygen", "M0", _, p] => {
+                if let Ok(ap) = policy_of(p) {
+                    if let Ok(x) = self.cc.generate_user_secret_key(m, &ap) {
+                        *u = Some(x);
+                    }
+                }
+            }
+            ["refresh", "M0", _, _, keep] => {
+                if let Some(x) = u.as_mut() {
+                    let _ = self.cc.refresh_usk(m, x, *keep == "1");
+                }
+            }
+            ["encaps", _, _, p] | ["pke_enc", _, _, p, _] | ["hdr_gen", _, _, p, _, _] => {
+                if let (Ok(ap), Some(k)) = (policy_of(p), k.as_ref()) {
+                    if let Ok((_, x)) = self.cc.encaps(k, &ap) {
+                        if let Some(x2) = u.as_ref() {
+                            let _ = self.cc.decaps(x2, &x);
+                        }
+                    }
+                }
+            }
+            _ => {
+                let _ = first_m0;
+            }
+        }
     }
 
     fn decaps_str(&self, u: &UserSecretKey, e: &(XEnc, Secret<32>)) -> String {
@@ -368,10 +458,18 @@ impl Real {
         if let Some(out) = self.ds.step(t.as_slice()) {
             return out;
         }
+        if self.tenant_on {
+            self.tenant_step(t.as_slice());
+        }
         match t.as_slice() {
             ["reset"] => {
                 self.reset();
                 "ok".into()
+            }
+            ["tenant", "on"] => {
+                self.tenant_on = true;
+                self.model_line = Some("noop".into());
+                "bad-op".into()
             }
             ["parse", h] => {
                 let Some(txt) = str_of_hex(h.strip_prefix('x').unwrap_or("?")) else { return "bad-hex".into() };
